@@ -69,6 +69,25 @@ def point_scenarios(tier):
     add("i48_full_grow_rem", rng(48), ["i49"], ["r48"])
     add("i256_min_shrink_shrink", rng(49), ["r1"], ["r2"])
     add("i256_min_shrink_ins", rng(49), ["r49"], ["i50"])
+    # --- the same interactions instantiated for every node class (the code paths are per-class template
+    # instantiations with `if constexpr` differences: seed c03d changed only the inode_256 one): a node of class C
+    # with room, (a) add || add, (b) add || remove, (c) add / remove / get || a prefix split above the node (the
+    # node stays in the tree with its prefix cut in place), (d) the node below an I4 parent whose other child
+    # (a leaf) is removed: the collapse prepends to the node's prefix in place
+    far = 1 << 24           # differs from the small keys in byte 4: prefix split two bytes above the node
+    for cname, n in (("i4", 3), ("i16", 8), ("i48", 20), ("i256", 50)):
+        base = [i * 256 for i in range(1, n + 1)]          # one node, key byte = byte 6, children 1..n
+        newk, newk2 = (n + 2) * 256, (n + 3) * 256
+        add("cls_%s_add_add" % cname, base, ["i%d" % newk], ["i%d" % newk2])
+        add("cls_%s_add_rem" % cname, base, ["i%d" % newk], ["r%d" % base[0]])
+        add("cls_%s_add_vs_prefix_split" % cname, base, ["i%d" % newk], ["i%d" % far])
+        add("cls_%s_rem_vs_prefix_split" % cname, base, ["r%d" % base[1]], ["i%d" % far])
+        add("cls_%s_get_vs_prefix_split" % cname, base, ["g%d" % base[1], "g%d" % newk], ["i%d" % far])
+        # readers of the last child / of an absent key while the key array is shifted in place (torn reads)
+        add("cls_%s_get_vs_edit" % cname, base, ["g%d" % base[-1], "g%d" % newk], ["i0", "r%d" % base[0]])
+        deep = [K(1, 0, 0)] + [K(0, i, 0) for i in range(1, n + 1)]    # I4 root {0 -> node, 1 -> leaf}
+        add("cls_%s_add_vs_collapse_above" % cname, deep, ["i%d" % K(0, n + 2, 0)], ["r%d" % K(1, 0, 0)])
+        add("cls_%s_rem_vs_collapse_above" % cname, deep, ["r%d" % K(0, 1, 0)], ["r%d" % K(1, 0, 0)])
     # --- two levels: root I4 [leaf 1, inode{257,258}]: collapse with an inner sibling (D4)
     t2 = [K(0, 0, 1), K(0, 1, 1), K(0, 1, 2)]
     add("collapse_inner_get", t2, ["g%d" % K(0, 1, 1)], ["r1"])
@@ -169,6 +188,27 @@ def scan_scenarios(tier):
     add("scan_fwd_i16_inplace_rem", i16, ["sf"], ["r1", "r3"])
     add("scan_rev_i16_inplace_rem", i16, ["sr"], ["r8", "r6"])
     add("scan_fwd_i16_inplace_ins", [2, 4, 6, 8, 10, 12], ["sf"], ["i1", "i5"])
+    # seeks whose bound byte is not a child (gte_key_byte / lte_key_byte decide from the key array and the
+    # child count) while a writer edits that node in place: a torn read hides a stable child (seed c09d)
+    add("seek_fwd_vs_inplace_ins_i4", [2, 4, 6], ["ff5"], ["i3"])
+    add("seek_rev_vs_inplace_ins_i4", [2, 4, 6], ["fr3"], ["i5"])
+    add("seek_fwd_vs_inplace_rem_i4", [2, 4, 6, 8], ["ff5"], ["r2"])
+    add("seek_rev_vs_inplace_rem_i4", [2, 4, 6, 8], ["fr5"], ["r8"])
+    add("seek_range_vs_inplace_ins_i4", [2, 4, 6], ["R5-7", "R3-1"], ["i3"])
+    e16 = [2 * i for i in range(1, 9)]
+    add("seek_fwd_vs_inplace_ins_i16", e16, ["ff9"], ["i3"])
+    add("seek_rev_vs_inplace_ins_i16", e16, ["fr9"], ["i11"])
+    add("seek_fwd_vs_inplace_rem_i16", e16, ["ff9"], ["r2"])
+    lo = [K(0, 1, 2), K(0, 1, 4), K(0, 1, 6), K(0, 2, 1)]
+    add("seek_fwd_falloff_vs_inplace_ins", lo, ["ff%d" % K(0, 1, 5)], ["i%d" % K(0, 1, 3)])
+    add("seek_rev_falloff_vs_inplace_ins", [1] + lo, ["fr%d" % K(0, 1, 3)], ["i%d" % K(0, 1, 5)])
+    add("reseek_vs_inplace_ins", [2, 4, 6, 8], ["sf"], ["r4", "i3"])
+    e48 = [3 * i for i in range(1, 21)]
+    add("seek_fwd_vs_edit_i48", e48, ["ff31h2"], ["i4"])
+    add("seek_rev_vs_edit_i48", e48, ["fr31h2"], ["r60"])
+    e256 = [3 * i for i in range(1, 53)]
+    add("seek_fwd_vs_edit_i256", e256, ["ff100h2"], ["i4"])
+    add("seek_rev_vs_edit_i256", e256, ["fr100h2"], ["r153"])
     # two writers
     add("scan_two_writers", three, ["sf"], ["r1", "i1"], ["r%d" % c, "i%d" % K(0, 2, 2)])
     add("scan_range_two_writers", three, ["R2-%d" % c], ["r%d" % a], ["i3"])
@@ -183,6 +223,15 @@ def scan_scenarios(tier):
         add("scan_grow_under_scanner", rng(4) + [a, b], ["sf", "sr"], ["i5", "i6"])
         add("scan_from_each_bound", two, ["ff1", "ff2", "ff%d" % a], ["r2", "r%d" % a])
     return S
+
+
+def fine_grained(sc):
+    """scenarios that are also searched with every protected-field access a scheduling point (bounded
+    preemptions at field granularity: torn reads of a node that is being edited in place)"""
+    n = sc.name
+    return (n.startswith("seek_") or n.startswith("reseek_vs_inplace") or "_inplace_" in n
+            or (n.startswith("cls_") and (n.endswith("_add_add") or n.endswith("_add_rem") or n.endswith("_get_vs_edit")))
+            or n in ("i4_3_rem_rem", "i4_2_rem_ins", "i16_min_shrink_ins", "i4_full_grow_get", "scan_from_absent_bound"))
 
 
 def write_chunks(scs, d, nchunks):
